@@ -410,11 +410,17 @@ func (_this *arrayEncoderEngine) beginArrayInt64(onComplete func()) {
 	}
 }
 
+// Zero filling has no meaning for a hexadecimal float, so both hexadecimal
+// settings use the (prefix-less) hex float notation of "x" arrays.
+func isHexFormat(format configuration.CTENumericFormat) bool {
+	return format == configuration.CTEEncodingFormatHexadecimal || format == configuration.CTEEncodingFormatHexadecimalZeroFilled
+}
+
 func (_this *arrayEncoderEngine) beginArrayFloat16(onComplete func()) {
 	const elemWidth = 2
 	_this.setElementByteWidth(elemWidth)
 	_this.stream.WriteStringNotLF(arrayHeadersFloat16[_this.config.Encoder.CTE.DefaultNumericFormats.Array.Float16])
-	if _this.config.Encoder.CTE.DefaultNumericFormats.Array.Float16 == configuration.CTEEncodingFormatHexadecimal {
+	if isHexFormat(_this.config.Encoder.CTE.DefaultNumericFormats.Array.Float16) {
 		_this.addElementsFunc = func(data []byte) {
 			for len(data) > 0 {
 				_this.writeSpaceIfNotFirstElement()
@@ -441,7 +447,7 @@ func (_this *arrayEncoderEngine) beginArrayFloat32(onComplete func()) {
 	const elemWidth = 4
 	_this.setElementByteWidth(elemWidth)
 	_this.stream.WriteStringNotLF(arrayHeadersFloat32[_this.config.Encoder.CTE.DefaultNumericFormats.Array.Float32])
-	if _this.config.Encoder.CTE.DefaultNumericFormats.Array.Float32 == configuration.CTEEncodingFormatHexadecimal {
+	if isHexFormat(_this.config.Encoder.CTE.DefaultNumericFormats.Array.Float32) {
 		_this.addElementsFunc = func(data []byte) {
 			for len(data) > 0 {
 				_this.writeSpaceIfNotFirstElement()
@@ -468,7 +474,7 @@ func (_this *arrayEncoderEngine) beginArrayFloat64(onComplete func()) {
 	const elemWidth = 8
 	_this.setElementByteWidth(elemWidth)
 	_this.stream.WriteStringNotLF(arrayHeadersFloat64[_this.config.Encoder.CTE.DefaultNumericFormats.Array.Float64])
-	if _this.config.Encoder.CTE.DefaultNumericFormats.Array.Float64 == configuration.CTEEncodingFormatHexadecimal {
+	if isHexFormat(_this.config.Encoder.CTE.DefaultNumericFormats.Array.Float64) {
 		_this.addElementsFunc = func(data []byte) {
 			for len(data) > 0 {
 				_this.writeSpaceIfNotFirstElement()
